@@ -53,7 +53,7 @@ mod negamax {
 //@@ body: engine/search/aspiration.rs :: fn aspiration_search => aspiration_search__body
 
 //@ obligation: C04.aspiration.window_arith
-//@ property: C04 C09
+//@ property: C04 C09 C08
 //@ domain: complete
 //@ functions: engine/search/aspiration.rs::aspiration_search, engine/search/aspiration.rs::Window::around, engine/search/aspiration.rs::Window::widen_up, engine/search/aspiration.rs::Window::widen_down, engine/search/aspiration.rs::Window::increase_window_widening_rate, engine/search/aspiration.rs::clamp_alpha, engine/search/aspiration.rs::clamp_beta
 //@ timeout: 900
